@@ -4,6 +4,7 @@ package kcache
 
 import (
 	"context"
+	"fmt"
 	"time"
 
 	"github.com/boz/kcache/zzverif"
@@ -78,7 +79,7 @@ func vListerCycle(P string) {
 		start := <-cl.starts
 		if consumed {
 			zzverif.Assert(start >= consumedAt+vPeriod, P+"/not-before-timer")
-			zzverif.Reach(P+"/relisted")
+			zzverif.Reach(P + "/relisted")
 		}
 		// a lower bound of the consumption time: the clock read just before consuming
 		before := zzverif.Now()
@@ -92,10 +93,50 @@ func vListerCycle(P string) {
 		zzverif.Quiesce()
 		zzverif.Assert(vClosed(l.Done()), P+"/prompt-shutdown")
 		zzverif.Assert(zzverif.LiveLibGoroutines() == 0, P+"/prompt-shutdown/goroutines-exit")
-		zzverif.Reach(P+"/shutdown")
+		zzverif.Reach(P + "/shutdown")
 		return
 	}
 	zzverif.Quiesce()
 	zzverif.Assert(!vClosed(l.Done()), P+"/keeps-listing/alive")
-	zzverif.Reach(P+"/running")
+	zzverif.Reach(P + "/running")
+}
+
+// VerifC14_Lister: the real lister reports every kind of failed list call to the
+// controller (which stops on it): a plain client error, an error that happens to
+// be or wrap context.Canceled although nothing was cancelled, a non-list object.
+func VerifC14_Lister() {
+	cl := newListClient()
+	stop := make(chan struct{})
+	l := newLister(context.Background(), vLog{}, stop, time.Duration(1000), cl)
+	zzverif.AllowTimerFires(2)
+	k := zzverif.NondetInt("k", 1, zzverif.Param("KMAX", 2))
+	for i := 1; i < k; i++ {
+		cl.release <- vListReply{obj: &corev1.PodList{}}
+		<-cl.starts
+		r := <-l.Result()
+		zzverif.Assert(r.err == nil, "C14/lister/ok-result")
+	}
+	var reply vListReply
+	kind := zzverif.NondetInt("failure", 0, 3)
+	switch kind {
+	case 0:
+		reply = vListReply{err: vInjected}
+	case 1:
+		reply = vListReply{err: context.Canceled} // the server / transport reports a cancellation of its own
+	case 2:
+		reply = vListReply{err: fmt.Errorf("list pods: %w", context.Canceled)}
+	default:
+		reply = vListReply{obj: &vNoMeta{}}
+	}
+	cl.release <- reply
+	<-cl.starts
+	r := <-l.Result() // a failure that is never handed over leaves the controller running on a cache it cannot refresh
+	zzverif.Assert(r.err != nil, "C14/lister/failure-reported")
+	if kind == 0 {
+		zzverif.Assert(vCause(r.err) == vInjected, "C14/lister/cause")
+	}
+	zzverif.Reach("C14/lister-failure")
+	close(stop)
+	zzverif.Quiesce()
+	zzverif.Assert(vClosed(l.Done()), "C14/lister/done")
 }
